@@ -60,7 +60,7 @@ def cxx11(tier, seed, runner, lines):
 def _configs(cfgs, lines):
     cov = {}
     viol = []
-    if not lines: return {'coverage': cov, 'violations': viol}
+    if not lines: lines = ['case']     # (the static-initialisation script below runs whatever the operation file holds)
     lean, lrc, lerr = run_ops(lean_driver(), '\n'.join(lines) + '\n')
     if lrc != 0 or len(lean) != len(lines):
         return {'coverage': cov, 'violations': [('config', ['# model driver'], 'the model driver failed: rc=%s, %d/%d answers\n%s' % (lrc, len(lean), len(lines), lerr[-1500:]), False)]}
@@ -118,6 +118,21 @@ def _configs(cfgs, lines):
             while j > 0 and lines[j] != 'case': j -= 1
             detail = 'configuration %s: transcript differs from the model\n got      %s\n expected %s\n rc=%s %s' % (name, out[bad][:600] if bad < len(out) else '<process died>', (expect[bad] or '')[:600], rc, err[-800:])
             viol.append(('config:' + name, lines[j:bad + 1], detail, True))
+    # the same fixed script of operations run DURING STATIC INITIALISATION (before the library's own translation units
+    # are initialised) and again from main(), in every configuration: the two transcripts must be identical
+    early = {}
+    for (s, nd, o, am) in cfgs:
+        name = 'cfg_%s_%s_%s_%s' % (s.replace('+', 'p'), 'ndebug' if nd else 'assert', o[1:], 'amal' if am else 'mod')
+        exe = os.path.join(outdir, name)
+        if not os.path.exists(exe): continue
+        p = subprocess.run([exe, '--early'], stdout=subprocess.PIPE, stderr=subprocess.PIPE, text=True, timeout=600)
+        me = re.search(r'early operations=(\d+) differing=(\d+)', p.stdout)
+        early[name] = (int(me.group(1)), int(me.group(2))) if me else None
+        if p.returncode != 0 or not me or int(me.group(2)) > 0 or int(me.group(1)) < 4000:
+            if sum(1 for v in viol if v[0].startswith('config-early')) < 2:
+                viol.append(('config-early:' + name, ['# the static-initialisation script of harness/cfg_driver.cpp (early_script), configuration %s' % name, '# run: <that build of cfg_driver> --early', 'case'],
+                             'configuration %s: operations executed during static initialisation (a namespace-scope object of a translation unit linked before the library) answer differently from the same operations executed from main() — in this configuration the library is not yet initialised then (rc=%s)\n%s\n%s' % (name, p.returncode, p.stdout[:2500], p.stderr[-800:]), True))
+    cov['static_initialisation_script'] = {'operations': max([e[0] for e in early.values() if e] or [0]), 'configurations_identical_to_main': sum(1 for e in early.values() if e and e[1] == 0), 'configurations': len(early)}
     cov['programs'] = len(per)
     cov['disagreements_checked'] = checked
     cov['configurations'] = per
@@ -375,7 +390,14 @@ def wptset(tier, seed, runner, lines): return _wpt('wptset', runner)
 def wptform(tier, seed, runner, lines): return _wpt('wptform', runner)
 
 
-def ownreplay(tier, seed, runner, lines):
+def ownsafe(tier, seed, runner, lines):
+    """C04: the same model-generated histories over all special member functions of both classes (with objects destroyed
+    while others still point at them), replayed on the library under ASan/UBSan/LSan. For this property only a sanitizer
+    report is a failing input (the history up to the operation in which it was raised); a difference of the pointer
+    graph is a broken correspondence."""
+    return ownreplay(tier, seed, runner, lines, crash_only=True)
+
+def ownreplay(tier, seed, runner, lines, crash_only=False):
     """C06: the pointer-graph model (Impl/Own.lean: every url_search_params object with its back pointer, every url with the
     params object it holds; theorems Props/C06b) against the real objects. The model generates random histories over
     all special member functions of both classes (construct / copy / move / safe_assign / swap / destroy, lazy
@@ -432,5 +454,27 @@ def ownreplay(tier, seed, runner, lines):
                 st = max(i for i in range(idx + 1) if L[i] == 'RESET')
                 en = next(i for i in range(idx, len(L)) if L[i] == 'E')
                 rep = L[st:en + 1]
-        viol.append(('own', rep or ['# own_replay'], 'own\nthe pointer graph of the real objects differs from the model (rc=%s)\n%s\n%s' % (p.returncode, p.stdout[:3000], p.stderr[-2500:]), bool(first) or p.returncode != 0))
+        # a sanitizer report: the history up to the operation in which it was raised
+        md = re.search(r'DEATH-AT-OP (\d+)', p.stderr) if not m else None    # (LeakSanitizer reports at exit, after the summary line)
+        crash_rep = []
+        if md:
+            L = hist.split('\n'); k = 0
+            for i, l in enumerate(L):
+                if l.startswith('OP '):
+                    k += 1
+                    if k == int(md.group(1)):
+                        st = max(j for j in range(i + 1) if L[j] == 'RESET')
+                        en = next((j for j in range(i, len(L)) if L[j] == 'E'), len(L) - 1)
+                        crash_rep = L[st:en + 1]
+                        break
+            cov['sanitizer_report_at_operation'] = int(md.group(1))
+        if crash_only:
+            if md or (p.returncode != 0 and not m):
+                viol.append(('crash', crash_rep or rep or ['# own_replay'], 'crash\na sanitizer report (or abnormal end, rc=%s) while the library executed a history of special member functions that the model allows:\n%s' % (p.returncode, p.stderr[-3500:]), True))
+            elif 'LeakSanitizer' in p.stderr:
+                viol.append(('crash', ['# own_replay'], 'crash\nLeakSanitizer: the library leaked over the replayed histories:\n%s' % p.stderr[-3000:], True))
+            else:
+                viol.append(('own', rep or ['# own_replay'], 'own\nthe pointer graph of the real objects differs from the model (rc=%s); no sanitizer report: for this property a broken correspondence\n%s' % (p.returncode, p.stdout[:3000]), False))
+        else:
+            viol.append(('own', rep or crash_rep or ['# own_replay'], 'own\nthe pointer graph of the real objects differs from the model (rc=%s)\n%s\n%s' % (p.returncode, p.stdout[:3000], p.stderr[-2500:]), bool(first) or p.returncode != 0))
     return {'coverage': cov, 'violations': viol}
